@@ -57,10 +57,12 @@ PROPS = {
         'classes': {1: 'double-release', 2: 'released-while-application-holds-it', 3: 'content-changed-while-held',
                     4: 'written-after-release', 5: 'handed-to-application-after-release', 7: 'used-after-release'},
         'trusted': ['hook message/pool (release / recycle / re-acquire notifications, poison helpers; add-only, build tag verif)',
+                    'hook message/pool verifOnUse: one added line per exported accessor of pool.Message (build tag verif; no-op twin): accesses that bypass the accessors (direct field access inside package pool: Reset, Clone target, codec buffers) are not seen',
+                    'harness/c12_use.go: the witness "caller parked in sync.(*RWMutex).Lock" is read from a runtime.Stack snapshot (goroutine header state + frame name)',
                     'harness/pooltrack.go: object numbering by pointer, digest of message content at hand-over and at the end of the hold'],
         'assumptions': ['sync.Pool hands out only objects that were Put', 'the order of tracker events is the order in which the hooks took the tracker lock (a linearisation of the real events)'],
-        'level_text': 'PARTIAL. Coq theorems (Properties/C12.v): the ownership automaton accepts only traces that satisfy the property as stated (no double release, no recycling or change while the application holds a message, no use after release); the library paths as modelled (receive, receive-with-hijack, request with clone and retransmission temporaries) are accepted, and so is EVERY interleaving of accepted traces over disjoint objects. That the Go code follows no other path is established by running the monitor on complete lifecycle traces of real executions (sequential histories of C05/C06 and concurrent scenarios), not by proof.',
-        'level_note': 'Level other: theorem about the model of the paths + runtime monitoring of the real code through a verif-tagged tracker in the pool; reads after release are invisible to the tracker (only writes break the poison pattern).',
+        'level_text': 'PARTIAL. Coq theorems (Properties/C12.v): the ownership automaton accepts only traces that satisfy the property as stated (no double release, no recycling or change while the application holds a message, no use after release); the library paths as modelled (receive, receive-with-hijack, request with clone and retransmission temporaries) are accepted, and so is EVERY interleaving of accepted traces over disjoint objects. Round 3 (Pool/Use.v): an access to a released message (Use) is rejected by the automaton and by the property text (class 7) while accesses to other messages are irrelevant; udp AsyncPing with every order and multiplicity of its finishers (pong, expiry sweep, cancel function) is accepted, and the variant whose cancel function reads the message ID from the ping message is rejected exactly in the runs where the cancel comes after another finisher; net/blockwise: a caller of Do that gives up while any number of receive paths read its request under the read lock of sendingMessagesCache - every schedule of the step model is accepted, the caller cannot pass its Delete while a receive path that found the entry is in its locked section, and with reads outside the lock a violating schedule exists. That the Go code follows no other path is established by running the monitor on complete lifecycle traces of real executions (sequential histories of C05/C06 and concurrent scenarios), not by proof.',
+        'level_note': 'Level other: theorem about the model of the paths + runtime monitoring of the real code through a verif-tagged tracker in the pool; reads and writes of a released message are seen when they go through an accessor of pool.Message (hook in every exported accessor) or through the body of a request the harness supplies; the Hijack flag is exempt (it deliberately outlives a release).',
         'explanation': 'What is proved: monitor soundness, rejection of the named violations, safety of the modelled paths and of all their interleavings (Pool/Proofs.v). What is only observed: the real lifecycle traces (release, recycle, re-acquire with poison check, application hold/unhold with content digest) of server-role histories, client-role histories and concurrent mixed scenarios are accepted by the monitor and never exceed the pool bound.',
     },
 }
